@@ -1182,6 +1182,54 @@ func harnessC11world() {
 	vDone()
 }
 
+// harnessC11secondHost: gRPC, launched through exec.Cmd. The first host attaches and receives output; its connection
+// then goes away without the plugin being shut down (the reattach launch method: the host process ended); the plugin
+// writes while nobody is attached; a second host reattaches and must receive that output, in order, before anything
+// written later.
+func harnessC11secondHost() {
+	var o wOpts
+	o.grpc = true
+	o.allowed = 1
+	o.cmd = true
+	w := wSetup(o)
+	out1, err1 := &wRecWriter{}, &wRecWriter{}
+	w.c.config.SyncStdout, w.c.config.SyncStderr = out1, err1
+	o1, o2, o3, e2 := vNondetStr("o1", ""), vNondetStr("o2", ""), vNondetStr("o3", ""), vNondetStr("e2", "")
+	vAssume(len(o1) >= 1 && len(o1) <= 1024 && len(o2) >= 1 && len(o2) <= 1024 && len(o3) >= 1 && len(o3) <= 1024 && len(e2) >= 1 && len(e2) <= 1024)
+	write := func(toErr bool, s string) {
+		done := make(chan struct{})
+		go func() { vSetProc(w.p.id); wPluginWrite(toErr, s); close(done) }()
+		<-done
+	}
+	cp1, err := w.c.Client()
+	vAssume(err == nil)
+	write(false, o1)
+	vSleepUntil(vNow() + 1*sec)
+	vAssert(len(out1.chunks) == 1 && out1.chunks[0] == o1, "C11: the first host receives what the plugin wrote while it was attached")
+	rc := w.c.ReattachConfig()
+	vAssume(rc != nil)
+	cp1.(*GRPCClient).Conn.Close() // the first host goes away; the plugin keeps running
+	vSleepUntil(vNow() + 1*sec)
+	vAssert(!w.p.isDead, "the plugin survives its host's connection going away")
+	write(false, o2) // nobody is attached
+	write(true, e2)
+	vSleepUntil(vNow() + 1*sec)
+	vCover("written-while-detached")
+	out2, err2 := &wRecWriter{}, &wRecWriter{}
+	c2 := NewClient(&ClientConfig{HandshakeConfig: wHandshake0, Plugins: PluginSet{"test": &wPlug{}}, Logger: newWLogger(),
+		AllowedProtocols: []Protocol{ProtocolGRPC}, Reattach: rc, SyncStdout: out2, SyncStderr: err2})
+	_, err = c2.Client()
+	vAssert(err == nil, "C15: a second host reattaches to the running plugin")
+	write(false, o3)
+	vSleepUntil(vNow() + 2*sec)
+	vAssert(len(out1.chunks) == 1, "C11: nothing more reaches the host that went away")
+	vAssert(len(out2.chunks) == 2 && out2.chunks[0] == o2 && out2.chunks[1] == o3, "C11: output written while no host was attached is delivered, in order, to the host that attaches next (nothing dropped)")
+	vAssert(len(err2.chunks) == 1 && err2.chunks[0] == e2, "C11: stderr written while no host was attached is delivered to the host that attaches next")
+	vCover("delivered-to-second-host")
+	c2.Kill()
+	vDone()
+}
+
 // ---------------------------------------------------------------------------------------------- C19 / C20: concurrent use
 // Two goroutines use one Client at the same time, each performing one of the public operations; all schedules within
 // the reversal bound. Launch at most once; equal results; no panic; no data race inside go-plugin.
